@@ -9,7 +9,7 @@ GEN_NOTE = "Trusted: CPython ast/compile front-end; the analyser's abstract inte
 CLAIMED = {
  'C01': ('abstract interpretation of the code generator (finite domain of hint shapes) + term rewriting of generated code + comparison with reference semantics (acceptance direction, truth-table implication fallback) + definite-assignment analysis of assignment expressions + guard (non-emptiness) dominance',
          'For every enumerated abstract hint shape (all productions nested in all slots, depth 2; depth 3 sampled in the thorough tier) x {is_random} the code beartype would generate is obtained by interpreting make_check_expr over abstract hints, rewritten to a variable-free term and compared with the reference semantics of the hint: the generated test accepts at least what the reference accepts, every item read is guarded, every pith variable is bound where read, templates and call sites agree, validator code is hygienic for every category of pith expression it receives, and the ignorable fast path exists on all three entry routes. Necessary conditions of C01, decided for all hints of the enumerated shapes and, by compositionality of the generator, for their nestings.',
-         GEN_NOTE + ' Known findings F1, F2 (validator hygiene) are genuine defects recorded in known_findings.json.', 'DESIGN.md §4 C01'),
+         GEN_NOTE + ' Defects F1, F2 (validator hygiene) found by C01.R2 were repaired in /repo (fix: dd6e4a7); the rule stays armed.', 'DESIGN.md §4 C01'),
  'C02': ('abstract interpretation of the code generator + term comparison with reference semantics (detection direction) + scope/draw consistency + fail-closed table of ignorable-sentinel producers (path-condition fingerprints)',
          'For every enumerated shape the generated term equals the reference term exactly (prescribed item strategy: random index modulo the length of the same container under is_random, first item otherwise; every fixed-tuple position and the length test; all literals by ==; isinstance-and-issubclass; metahint and every validator conjoined) or implies it; the random draw is in scope exactly when used and is drawn once; an ignorable child elides only the child test; every producer of the ignorable sentinel is one of 14 reviewed producers.',
          GEN_NOTE + ' Assumes R % n over 32 bits reaches every residue for n <= 2**32. C02.R4 is deliberately fail-closed for new producers.', 'DESIGN.md §4 C02'),
@@ -30,7 +30,7 @@ CLAIMED = {
          GEN_NOTE, 'DESIGN.md §4 C10'),
  'C12': ('abstract interpretation of the vale factories and operators + translation of is_valid lambdas/defs to terms (sibling agreement) + probe-category hygiene of {obj} + scope-closure check',
          'For every factory (Is, IsAttr, IsEqual, IsInstance, IsSubclass), operator (&, |, ~) and nesting in the catalogue, the is_valid callable and the is_valid_code string denote the same term; every scope name used by a code string is bound; the code stays correct for each syntactic category of pith expression the generator was observed to pass; the Annotated production is metahint AND every validator and the explanation path consults every validator.',
-         GEN_NOTE + ' Known findings F1, F2 recorded.', 'DESIGN.md §4 C12'),
+         GEN_NOTE + ' Defects F1, F2 found by C12.R3 were repaired in /repo (fix: dd6e4a7); the rule stays armed.', 'DESIGN.md §4 C12'),
  'C17': ('ast table cross-check (key/kwargs/slots/properties/validators) + must-pass-through dataflow + interprocedural mutation summary + lock-region check',
          'Necessary structural conditions of the property are decided on every run from the source: the option tables of BeartypeConf agree pairwise, every return of __new__ is dominated by validation, the memo key and the read-back kwargs are in one normal form, the first hashing of raw options is guarded, and the memo table is only touched inside one critical section. Behaviour beyond these conditions (e.g. the environment-variable override) is not decided.',
          'Trusted: CPython ast; name-based call resolution (unresolved callees fail closed); the recognised idioms listed in DESIGN-tables T6. Known findings F9, F12a, F12b are genuine defects recorded in known_findings.json.',
@@ -44,10 +44,10 @@ CLAIMED.update({
          AST_NOTE + ' Known findings F4, F16.', 'DESIGN.md §4 C05'),
  'C06': ('lock-region analysis over a resolved call graph + structural check of the lookup fold + may-dataflow (store before raise) with path enumeration of sibling callees + interprocedural write-set vs restore-set + value-provenance of the restore condition modulo the normaliser',
          'Registry and path-hook state are only touched under claw_lock (lexically or in every caller); blacklist dominates whitelist and the deepest registered prefix wins; no registry store precedes a conflict raise on any path; beartyping() restores every field it (transitively) writes and compares with the value it stored; path-hook add/remove are idempotent and paired with cache invalidation.',
-         AST_NOTE + ' Known findings F5, F6, F7.', 'DESIGN.md §4 C06'),
+         AST_NOTE + ' Known findings F6, F7; F5 repaired in /repo (fix: dc3e6e4).', 'DESIGN.md §4 C06'),
  'C11': ('raise-site typing over the resolved class hierarchy (327 sites) + exception_cls default/argument flow + sibling check of make_func routes + family layering + guard dominance of first-hash sites + wrapper try-body facts',
          'Every raise in the package is a BeartypeException subclass, a re-raise, a forwarded exception_cls parameter or one of 14 reviewed protocol-mandated builtin raises; exception_cls defaults and arguments are beartype classes; both routes into make_func pass a public class; each sub-package raises only its own family; the placeholder re-raise keeps the object; the first hash of raw user input in entry functions is guarded; generated wrappers never put the call-through in a try.',
-         AST_NOTE + ' Implicit exceptions from arbitrary hint objects are out of scope. Known findings F8, F9.', 'DESIGN.md §4 C11'),
+         AST_NOTE + ' Implicit exceptions from arbitrary hint objects are out of scope. Known finding F9; F8 repaired in /repo (fix: 804fb18).', 'DESIGN.md §4 C11'),
  'C13': ('return-value identity analysis + loop-source and guard checks + no-op branch analysis + descriptor dispatch table and rebuild-shape checks + writer/reader name agreement',
          'beartype_type returns its parameter on every path and the non-fatal route returns the object; only own members (cls.__dict__) and lexically nested classes are decorated; every no-op condition of beartype_func returns the callable itself; classmethod/staticmethod/property are rebuilt as what they were with all parts; wrappers carry the wrappee metadata and the already-beartyped marker is written and read under one name.',
          AST_NOTE, 'DESIGN.md §4 C13'),
@@ -68,7 +68,7 @@ CLAIMED.update({
          AST_NOTE + ' Known findings F14a, F14b, F14c.', 'DESIGN.md §4 C19'),
  'C20': ('dependence analysis of infer_hint returns + sibling deviance among state-machine nodes + seen-set threading of recursive calls + factory/sign table agreement',
          'A result that does not depend on the object must accept everything; protocol nodes of the inference state machine yield abstract factories; the recursion guard comes first and every recursive call passes the extended seen-set; every builtin factory has a supported sign. The round trip for all objects is NOT decided.',
-         AST_NOTE + ' Known findings F15a, F15b.', 'DESIGN.md §4 C20'),
+         AST_NOTE + ' Known finding F15a; F15b repaired in /repo (fix: 4291237).', 'DESIGN.md §4 C20'),
 })
 
 NOT_YET = {}
